@@ -9,18 +9,35 @@ class C04(Property):
     lean_module = "RosuModel.Props.C04"
     namespace = "Rosu.C04"
     design_ref = "5.4"
-    required_theorems = ["headers_recognised", "encode_shape", "block_starts_with_header", "encoded_text_lines"]
+    required_theorems = ["headers_recognised", "encode_shape", "block_starts_with_header", "encoded_text_lines", "version_line_parses",
+                         "record_blocks_are_lines", "lines_of_block", "record_lines_accepted_metadata", "record_lines_accepted_colours",
+                         "record_lines_accepted_editor", "record_lines_accepted_difficulty", "record_lines_accepted_general",
+                         "record_lines_accepted_events", "lines_dispatched", "record_blocks_accepted_and_recovered",
+                         "hitobject_lines_accepted_partial"]
     partial_theorems = {
-        "line acceptance (general_lines_accepted … hitobject_lines_accepted, same_record_kind)": "proved so far: the shape of the output (version line, eight blocks in canonical "
-            "order, each starting with its recognised header) and that the reader hands the framing driver exactly the text's lines. That every record line is accepted by its section "
-            "parser is proved for the metadata text lines (Props/C03) and otherwise evaluated on the implementation by the `lines` oracle (a wrapping decoder logs every parser call "
-            "of the re-decode: no line lost, none rejected, same number of objects / timing points / breaks / colours) and by the char-for-char encoder correspondence",
+        "record_lines_accepted_editor / _difficulty / _general / _events, record_blocks_accepted_and_recovered":
+            "law-dependent: proved for every number codec satisfying CodecLaws (+ IntPrintLaw for AudioLeadIn), shown satisfiable by Lemmas/ToyCodec.lean; not proved of Rust's "
+            "Display/FromStr. record_lines_accepted_metadata / _colours, version_line_parses, encode_shape, lines_dispatched need no law",
+        "record_lines_accepted_*": "stated for section records that are representable (Rt*.Rep*: self-trimmed single-line texts, file names without `//`, backslash (and, for the background, "
+            "comma / outer quotes), integers within ±(2^31−1), floats representable by the codec within the parse limit and inside the field's clamp, colour components ≤ 255, custom colour "
+            "names without `:` / `//` / leading `Combo`, pairwise distinct). That every *decoded* map satisfies these (the `Decoded` invariant of DESIGN 5.4) is not proved here",
+        "hitobject_lines_accepted_partial": "law-dependent; covers circles, spinners and hold notes only (line is LF-free, a record line, accepted in any state, same kind of object comes back); "
+            "slider lines are missing",
+        "line acceptance for slider and [TimingPoints] lines (timing_lines_accepted, hitobject_lines_accepted, same_record_kind)":
+            "NOT yet theorems (`def list_block_lines_accepted_statement : Prop`); record_blocks_accepted_and_recovered assumes of these two blocks only that they are LF-terminated lines that "
+            "are neither headers nor skipped. Evaluated on the implementation by the `lines` oracle (a wrapping decoder logs every parser call of the re-decode: no line lost, none "
+            "rejected, same number of objects / timing points / breaks / colours) and by the char-for-char encoder correspondence",
     }
-    level_text = ("Lean 4 theorems over the encoder model: the encoded text is the version line followed by the eight blocks in canonical order, each introduced by a blank line and "
-                  "starting with the header its decoder recognises (encode_shape, headers_recognised), and reading that text back yields exactly its own lines (encoded_text_lines, via "
-                  "C10). The encoder model is compared character for character with Beatmap::encode_to_string on every generated and bundled map; the property itself is evaluated on the "
+    level_text = ("Lean 4 theorems over the encoder and decoder models: the encoded text is the version line followed by the eight blocks in canonical order, each introduced by a blank line and "
+                  "starting with the header its decoder recognises (encode_shape, headers_recognised); the version line parses back to the map's version (version_line_parses); each of the six "
+                  "record blocks is its header plus an explicit list of LF-terminated record lines (record_blocks_are_lines), every one of which is neither a header nor skipped and is accepted "
+                  "by its section's parser in any state (record_lines_accepted_<section>; sections with floats: for every lawful number codec); reading the text back yields exactly its own "
+                  "end-trimmed lines (encoded_text_lines, via C10) and the framing driver hands each block's lines, in order, to exactly that section's parser (lines_dispatched, via C05); "
+                  "file level for the record blocks: record_blocks_accepted_and_recovered; hit-object lines of circles, spinners and hold notes: hitobject_lines_accepted_partial. "
+                  "Acceptance of slider and timing-point lines is not yet a theorem. "
+                  "The encoder model is compared character for character with Beatmap::encode_to_string on every generated and bundled map; the property itself is evaluated on the "
                   "real code for every line of every encoding (oracle `lines`).")
-    technique = "Lean 4 proof (output shape, reader inversion) + char-for-char encoder correspondence + per-line acceptance oracle on the implementation"
+    technique = "Lean 4 proof (output shape, reader inversion, per-line acceptance and dispatch for the six record sections; law-dependent where floats are printed) + char-for-char encoder correspondence + per-line acceptance oracle on the implementation"
     trusted_base = [
         "Lean 4.33.0 kernel; axioms ⊆ {propext, Classical.choice, Quot.sound} per #print axioms",
         "hand-written Model/Encode.lean (+ decode model) tied to /repo by the `enc` differential: identical text on every case of this run",
